@@ -26,7 +26,8 @@ func init() {
 func runC05(c *Ctx) {
 	const r1 = "C05.R1 removed from realm, dealer and broker before the peer is closed"
 	ruleSessionRemoval(c, r1)
-	c.R.Floor(r1, 14)
+	ruleShutdownFlag(c, r1)
+	c.R.Floor(r1, 15)
 
 	const r2 = "C05.R2 call recorded in all three tables together"
 	ruleCallRecording(c, r2)
@@ -96,42 +97,13 @@ func runC05(c *Ctx) {
 
 	// R4: dealer removal visits everything of the session
 	const r4 = "C05.R4 dealer removal is complete"
-	rs := dlr + "syncRemoveSession"
-	c.Reach(r4, rs, "callee's registration set dropped on every exit", ReachSpec{Stop: `^call:builtin:delete\(%d\.calleeRegIDSet, %sess\)$`, Target: "EXIT", Want: false})
-	regLoop := clause("a registration of the session", T(`^next:range\(%d\.calleeRegIDSet\[%sess\]\)#more$`))
-	c.Reach(r4, rs, "every registration of the session is left", ReachSpec{FromEdge: &regLoop,
-		Stop: `^call:router\.\(\*dealer\)\.syncDelCalleeReg\(%d, %sess, range\(%d\.calleeRegIDSet\[%sess\]\)#k\)$`, Target: `^val:next:range|^return:`, Want: false})
-	// own pending calls are abandoned: all three entries go
-	own := clause("call made by the leaving session", T(`^\(%sess == range\(%d\.calls\)#v\)$`))
-	c.Reach(r4, rs, "own call removed from d.calls", ReachSpec{FromEdge: &own, Stop: `^call:builtin:delete\(%d\.calls, range\(%d\.calls\)#k\)$`, Target: `^val:next:range|^return:`, Want: false})
-	hasInv := clause("call has an invocation", T(`^%d\.invocationByCall\[range\(%d\.calls\)#k\],ok#1$`))
-	for _, del := range []string{
-		`^call:builtin:delete\(%d\.invocationByCall, range\(%d\.calls\)#k\)$`,
-		`^call:builtin:delete\(%d\.invocations, %d\.invocationByCall\[range\(%d\.calls\)#k\],ok#0\)$`,
-	} {
-		c.Reach(r4, rs, "own call's invocation forgotten: "+del, ReachSpec{FromEdge: &hasInv, Stop: del, Target: `^val:next:range|^return:`, Want: false})
-	}
-	// progressive results of an abandoned call are interrupted
-	sy := dlr + "syncYield"
-	c.Reach(r4, sy, "progressive result for a forgotten invocation is answered with INTERRUPT", ReachSpec{
-		Stop: `^select\{send:call:invoke:wamp\.Peer\.Send\[%callee\.Peer\]\(\)<-new\(wamp\.Interrupt\);default\}$`,
-		Cut: []ir.Clause{clause("invocation known", T(`^%d\.invocations\[`+dInvkKey+`\],ok#1$`)), clause("final result", F(`^%progress$`))}, Target: "EXIT", Want: false})
-	c.Fields(r4, sy, "INTERRUPT literal", "wamp.Interrupt", nil, map[string]string{"Request": `^%msg\.Request$`}, 1)
-	c.R.Floor(r4, 7)
+	ruleDealerRemoval(c, r4)
+	ruleCalleeGone(c, r4)
+	c.R.Floor(r4, 12)
 
 	// R5: broker removal is complete
 	const r5 = "C05.R5 broker removal is complete"
-	bs := brk + "syncRemoveSession"
-	hasSet := clause("session has subscriptions", T(`^%b\.sessionSubIDSet\[%subscriber\],ok#1$`))
-	c.Reach(r5, bs, "session's subscription set dropped", ReachSpec{FromEdge: &hasSet, Stop: `^call:builtin:delete\(%b\.sessionSubIDSet, %subscriber\)$`, Target: "EXIT", Want: false})
-	subID := `range\(%b\.sessionSubIDSet\[%subscriber\],ok#0\)#k`
-	subExists := clause("subscription exists", T(`^%b\.subscriptions\[`+subID+`\],ok#1$`))
-	c.Reach(r5, bs, "session removed from every subscription it holds", ReachSpec{FromEdge: &subExists,
-		Stop: `^call:builtin:delete\(%b\.subscriptions\[` + subID + `\],ok#0\.subscribers, %subscriber\)$`, Target: `^val:next:range|^return:|^call:`, Want: false})
-	emptied := clause("last subscriber left and no history kept", F(`^call:router\.\(\*broker\)\.syncKeepsHistory\(%b, %b\.subscriptions\[`+subID+`\],ok#0\)$`))
-	c.Reach(r5, bs, "emptied subscription deleted", ReachSpec{FromEdge: &emptied, Stop: `^call:router\.\(\*broker\)\.syncDelSubscription\(%b, %b\.subscriptions\[` + subID + `\],ok#0\)$`, Target: `^val:next:range|^return:`, Want: false})
-	c.Guard(r5, bs, "subscription deleted only when empty", `^call:router\.\(\*broker\)\.syncDelSubscription\(`, 1,
-		clause("no subscribers left", T(`^\(call:builtin:len\(%b\.subscriptions\[`+subID+`\],ok#0\.subscribers\) == 0\)$`)))
+	ruleBrokerRemoval(c, r5)
 	c.R.Floor(r5, 4)
 
 	const rdup = "C05.R7 a session is a callee of a registration at most once (no stale entry after it leaves)"
@@ -176,4 +148,44 @@ func ruleCallRecording(c *Ctx, r2 string) {
 	}
 	// nothing can return between the three inserts: no answer to the caller (refusal) after recording
 	c.Reach(r2, sc, "no refusal after the call was recorded", ReachSpec{From: `^mapupdate:%d\.calls\[`, Target: dTrySendTo + `%caller, `, Want: false})
+}
+
+// ruleBrokerRemoval: a departing session is taken out of every subscription it holds; emptied subscriptions go.
+func ruleBrokerRemoval(c *Ctx, r5 string) {
+	bs := brk + "syncRemoveSession"
+	hasSet := clause("session has subscriptions", T(`^%b\.sessionSubIDSet\[%subscriber\],ok#1$`))
+	c.Reach(r5, bs, "session's subscription set dropped", ReachSpec{FromEdge: &hasSet, Stop: `^call:builtin:delete\(%b\.sessionSubIDSet, %subscriber\)$`, Target: "EXIT", Want: false})
+	subID := `range\(%b\.sessionSubIDSet\[%subscriber\],ok#0\)#k`
+	subExists := clause("subscription exists", T(`^%b\.subscriptions\[`+subID+`\],ok#1$`))
+	c.Reach(r5, bs, "session removed from every subscription it holds", ReachSpec{FromEdge: &subExists,
+		Stop: `^call:builtin:delete\(%b\.subscriptions\[` + subID + `\],ok#0\.subscribers, %subscriber\)$`, Target: `^val:next:range|^return:|^call:`, Want: false})
+	emptied := clause("last subscriber left and no history kept", F(`^call:router\.\(\*broker\)\.syncKeepsHistory\(%b, %b\.subscriptions\[`+subID+`\],ok#0\)$`))
+	c.Reach(r5, bs, "emptied subscription deleted", ReachSpec{FromEdge: &emptied, Stop: `^call:router\.\(\*broker\)\.syncDelSubscription\(%b, %b\.subscriptions\[` + subID + `\],ok#0\)$`, Target: `^val:next:range|^return:`, Want: false})
+	c.Guard(r5, bs, "subscription deleted only when empty", `^call:router\.\(\*broker\)\.syncDelSubscription\(`, 1,
+		clause("no subscribers left", T(`^\(call:builtin:len\(%b\.subscriptions\[`+subID+`\],ok#0\.subscribers\) == 0\)$`)))
+}
+
+// ruleDealerRemoval: a departing session leaves every registration; its own pending calls are forgotten in all tables.
+func ruleDealerRemoval(c *Ctx, r4 string) {
+	rs := dlr + "syncRemoveSession"
+	c.Reach(r4, rs, "callee's registration set dropped on every exit", ReachSpec{Stop: `^call:builtin:delete\(%d\.calleeRegIDSet, %sess\)$`, Target: "EXIT", Want: false})
+	regLoop := clause("a registration of the session", T(`^next:range\(%d\.calleeRegIDSet\[%sess\]\)#more$`))
+	c.Reach(r4, rs, "every registration of the session is left", ReachSpec{FromEdge: &regLoop,
+		Stop: `^call:router\.\(\*dealer\)\.syncDelCalleeReg\(%d, %sess, range\(%d\.calleeRegIDSet\[%sess\]\)#k\)$`, Target: `^val:next:range|^return:`, Want: false})
+	// own pending calls are abandoned: all three entries go
+	own := clause("call made by the leaving session", T(`^\(%sess == range\(%d\.calls\)#v\)$`))
+	c.Reach(r4, rs, "own call removed from d.calls", ReachSpec{FromEdge: &own, Stop: `^call:builtin:delete\(%d\.calls, range\(%d\.calls\)#k\)$`, Target: `^val:next:range|^return:`, Want: false})
+	hasInv := clause("call has an invocation", T(`^%d\.invocationByCall\[range\(%d\.calls\)#k\],ok#1$`))
+	for _, del := range []string{
+		`^call:builtin:delete\(%d\.invocationByCall, range\(%d\.calls\)#k\)$`,
+		`^call:builtin:delete\(%d\.invocations, %d\.invocationByCall\[range\(%d\.calls\)#k\],ok#0\)$`,
+	} {
+		c.Reach(r4, rs, "own call's invocation forgotten: "+del, ReachSpec{FromEdge: &hasInv, Stop: del, Target: `^val:next:range|^return:`, Want: false})
+	}
+	// progressive results of an abandoned call are interrupted
+	sy := dlr + "syncYield"
+	c.Reach(r4, sy, "progressive result for a forgotten invocation is answered with INTERRUPT", ReachSpec{
+		Stop: `^select\{send:call:invoke:wamp\.Peer\.Send\[%callee\.Peer\]\(\)<-new\(wamp\.Interrupt\);default\}$`,
+		Cut: []ir.Clause{clause("invocation known", T(`^%d\.invocations\[`+dInvkKey+`\],ok#1$`)), clause("final result", F(`^%progress$`))}, Target: "EXIT", Want: false})
+	c.Fields(r4, sy, "INTERRUPT literal", "wamp.Interrupt", nil, map[string]string{"Request": `^%msg\.Request$`}, 1)
 }
